@@ -24,7 +24,7 @@
   Also not proved: `serialize_groups` (per-section projection under section re-entry); the byte equality itself is differential.
 -/
 import AsmjitVerif.Lemmas.C08Ops
-import AsmjitVerif.Lemmas.C08Refine
+import AsmjitVerif.Lemmas.C08Refine2
 
 namespace AsmjitVerif.Props.C08
 open AsmjitVerif.Builder
@@ -98,7 +98,6 @@ theorem init_abs (r : Nat) : (Builder.St.init r).l.abs = (Spec.St.init r).d := b
 
 /-- actions covered by the proof so far -/
 def Covered : Act → Prop
-  | .removeRange a b => a = b
   | .section _ => False
   | _ => True
 
@@ -109,11 +108,7 @@ theorem refine_step (m : MList) (a : Act) (hc : Covered a) (h : Inv m) :
   | addAfter n r => exact refine_addAfter m n r h
   | addBefore n r => exact refine_addBefore m n r h
   | remove n => exact refine_remove m n h
-  | removeRange a b =>
-    have hab : a = b := hc
-    subst hab
-    have := refine_remove m a h
-    simpa [MList.apply, Doc.apply] using this
+  | removeRange a b => exact refine_removeRange m a b h
   | setCursor c => exact refine_setCursor m c h
   | regSection n => exact refine_regSection m n h
   | «section» n => exact absurd hc (by simp [Covered])
